@@ -105,15 +105,18 @@ impl SyncOp {
                     timestamp: timestamp2,
                 },
             ) if uuid1 == uuid2 && property1 == property2 => {
-                // if the value is the same, there's no conflict
-                if value1 == value2 {
+                // if the operations are the same, there's no conflict
+                if value1 == value2 && timestamp1 == timestamp2 {
                     (None, None)
-                } else if timestamp1 < timestamp2 {
+                } else if (timestamp1, value1) < (timestamp2, value2) {
                     // prefer the later modification
                     (None, Some(operation2))
                 } else {
-                    // prefer the later modification or, if the modifications are the same,
-                    // just choose one of them
+                    // prefer the later modification or, if the timestamps are the same, the
+                    // greater value, so that the winner does not depend on which of the two
+                    // operations reached the server first. This also applies when the values
+                    // are equal: the surviving operation carries the later timestamp, which
+                    // decides conflicts with further operations.
                     (Some(operation1), None)
                 }
             }
